@@ -118,7 +118,7 @@ def run(ctx):
         raise vk.Inconclusive("archive scripts printed (%d) != scenarios enumerated (%d)" % (len(arch_scripts), res.distinct // 2))
     all_dir, all_arch = len(dir_scripts), len(arch_scripts)
     rnd = random.Random(ctx.seed)
-    nd, na = ctx.pick(200, 3000), ctx.pick(200, 3000)
+    nd, na = ctx.pick(180, 3000), ctx.pick(180, 3000)
     if len(dir_scripts) > nd:
         dir_scripts = rnd.sample(dir_scripts, nd)
     if len(arch_scripts) > na:
@@ -155,7 +155,7 @@ def run(ctx):
         for f in (prog, phase):
             if os.path.exists(f):
                 os.remove(f)
-        env = dict(env, VERIF_OUT=trace, C15_RANDOM=ctx.pick(110, 1200))
+        env = dict(env, VERIF_OUT=trace, C15_RANDOM=ctx.pick(100, 1200))
         rc, out = ctx.run_bin(binp, run_, env=env, timeout=6000)
         if rc != 0 or "--- PASS" not in out:
             if (os.path.exists(prog) and os.path.exists(phase) and json.load(open(phase)) == "indexing"
